@@ -232,7 +232,11 @@ func c13Case(b *Batch, idx int) {
 	pairs := ""
 	for hop := 0; hop < chain; hop++ {
 		dstKind := kinds[rng.Intn(2)]
-		dst := newBackend(dstKind, cfg)
+		dcfg := cfg
+		if rng.Intn(2) == 0 {
+			dcfg.TimeToLive = 0 // receiver with the default finite TTL: restored expiries must not depend on it
+		}
+		dst := newBackend(dstKind, dcfg)
 		pair := curKind + "->" + dstKind
 		pairs += pair + ";"
 		b.R.Count("pair."+pair, 1)
@@ -360,7 +364,11 @@ func c13Generic[V any](b *Batch, idx int, rng *rand.Rand, cfg cache.Config, keys
 		b.R.Violate(b, idx, "C13:"+name+":"+what, fmt.Sprintf("%s %s: %s", name, what, msg), w)
 	}
 	for hop := 0; hop < chain; hop++ {
-		dst := cache.NewShardedMapOf[V](cfg.Use)
+		dcfg := cfg
+		if rng.Intn(2) == 0 {
+			dcfg.TimeToLive = 0
+		}
+		dst := cache.NewShardedMapOf[V](dcfg.Use)
 		var buf bytes.Buffer
 		dn, derr := cur.Dump(&buf)
 		stream := append([]byte(nil), buf.Bytes()...)
